@@ -705,7 +705,7 @@ def run(ctx: vlib.Ctx):
         "inputs are well typed for the field (null only for nullable fields); aliases, hooks, discriminators, "
         "forbid_extra_keys and dialects are other properties",
     ]
-    nprog = ctx.budget(80, 900)
+    nprog = ctx.budget(80, 450)
     nmax = ctx.budget(8, 10)
     lays: list[str] = []
     cases: list[str] = []
